@@ -8,10 +8,10 @@ use samlang_ast::{
 };
 
 fn analyze_number_of_iterations_to_break_less_than_guard(
-  initial_guard_value: i32,
-  guard_increment_amount: i32,
-  guarded_value: i32,
-) -> Option<i32> {
+  initial_guard_value: i64,
+  guard_increment_amount: i64,
+  guarded_value: i64,
+) -> Option<i64> {
   // Condition is already satisfied, so it does not loop.
   if initial_guard_value >= guarded_value {
     return Some(0);
@@ -23,7 +23,7 @@ fn analyze_number_of_iterations_to_break_less_than_guard(
   }
   let difference = guarded_value - initial_guard_value;
   let count =
-    difference / guard_increment_amount + ((difference % guard_increment_amount != 0) as i32);
+    difference / guard_increment_amount + ((difference % guard_increment_amount != 0) as i64);
   Some(count)
 }
 
@@ -33,7 +33,12 @@ fn analyze_number_of_iterations_to_break_guard(
   operator: GuardOperator,
   guarded_value: i32,
 ) -> Option<i32> {
-  match operator {
+  // The analysis is done in i64, since the distance between two i32 values, the negation of
+  // an i32 value and an i32 value plus 1 might not be representable as i32.
+  let initial_guard_value = i64::from(initial_guard_value);
+  let guard_increment_amount = i64::from(guard_increment_amount);
+  let guarded_value = i64::from(guarded_value);
+  let count = match operator {
     GuardOperator::LT => analyze_number_of_iterations_to_break_less_than_guard(
       initial_guard_value,
       guard_increment_amount,
@@ -54,7 +59,11 @@ fn analyze_number_of_iterations_to_break_guard(
       -guard_increment_amount,
       -(guarded_value - 1),
     ),
-  }
+  }?;
+  // When the first value that breaks the guard is not representable as i32,
+  // the induction variable wraps around instead of breaking the guard.
+  i32::try_from(initial_guard_value + guard_increment_amount * count).ok()?;
+  i32::try_from(count).ok()
 }
 
 pub(super) fn optimize(
